@@ -21,7 +21,7 @@ U = ["PYRO:o1@h:1", "PYRO:o2@h:2"]
 def alphabet(tier):
     quick = tier == "quick"
     names = ["a", "A", "a_", "a%", "a?"] if quick else ["a", "A", "ab", "a_", "a%", "a?", "a*", "a[b]", "é", ""]
-    metas = [None, ("t",), ("T", "t"), ("",)] if quick else [None, ("t",), ("T", "t"), ("%",), ("",), ("", "t")]
+    metas = [None, ("t",), ("T", "t"), ("",), ("r|w", "t")] if quick else [None, ("t",), ("T", "t"), ("%",), ("",), ("", "t"), ("r|w", "t"), ("a,b",)]
     muts = []
     for n in names + [NSNAME]:
         for ui, u in enumerate(U):
